@@ -47,3 +47,10 @@ Lemma node_spans_exact_all_grammars_refuted :
   chk w_cfg w_toks true (r_body w_run) [] 0 = None /\
   In (EBegin 8 0 2) (r_body w_run).
 Proof. vm_compute. repeat split. do 6 right. left. reflexivity. Qed.
+
+(* The parser's fuel is per file and never replenished, and when it runs out the rest of the source
+   is not emitted (MachineProofs.out_of_fuel_truncates).  A plain list of one-line rules takes about
+   22 units per rule, so the budget below is what lets sources of hundreds of megabytes through;
+   lowering it in the source makes this obligation fail and has to be reviewed. *)
+Lemma parser_fuel_budget : (100000000 <=? parser_fuel)%N = true.
+Proof. vm_compute. reflexivity. Qed.
